@@ -151,6 +151,7 @@ def build(tier, repo):
                 r3.ok(key + ":finalised", where, "scal -> symm -> max_step -> '%s'" % sk)
     if found != set(CERT):
         raise AnalysisError("conelp: certificate returns found only for %s" % sorted(found))
+    tm.check_residual_normalisers(r1, w, "coneprog", "conelp")
     r1.require(6)
     r2.require(2)
     r3.require(2)
